@@ -10,7 +10,7 @@
            err      faults in the author's sum x faults in the submission x subsets of input_positions
            algebra  laws of Index / SumOf themselves (not replayed) *)
 EXTENDS SumGrader
-CONSTANTS Part, L, Cut
+CONSTANTS Part, L, Cut, Stride
 
 CutFact == 8
 CVal == <<2, 1>>                                            \* the instructor-only variable c is 2 at every sample
@@ -75,6 +75,13 @@ Transform(tr, a, cut) ==
        [] name = "shift_wrong" -> [a EXCEPT !.lower = MoveLim(a.lower, k), !.upper = MoveLim(a.upper, k), !.body = [b EXCEPT !.shift = k]]
        [] name = "flip" -> [a EXCEPT !.body = [b EXCEPT !.sigma = -1]]
 
+\* explicit orders, used to thin the product (summand x transformation x parity) along diagonals when Stride > 1
+ValueSidSeq == <<"const", "lin", "quad", "altn", "xlin", "cplx", "vec", "cvec", "ivar", "geo", "altgeo">>
+TrSeq == << <<"same", 0>>, <<"lo", 1>>, <<"swap", 0>>, <<"lo", -1>>, <<"rename", 0>>, <<"hi", 1>>, <<"shift", 1>>, <<"hi", -1>>,
+            <<"shift", 2>>, <<"add", 1>>, <<"shift", -1>>, <<"scale", 2>>, <<"shift", -3>>, <<"scale", -1>>, <<"reverse", 0>>,
+            <<"shift_body", 1>>, <<"mirror", 0>>, <<"shift_limits", 2>>, <<"combo", 2>>, <<"shift_wrong", 1>>, <<"combo", 1>>,
+            <<"flip", 0>> >>
+IndexIn(seq, x) == CHOOSE i \in 1..Len(seq) : seq[i] = x
 Rewrites == { <<"same", 0>>, <<"swap", 0>>, <<"rename", 0>>, <<"shift", 1>>, <<"shift", 2>>, <<"shift", -1>>, <<"shift", -3>>,
               <<"reverse", 0>>, <<"mirror", 0>>, <<"combo", 2>>, <<"combo", 1>> }
 Perturbs == { <<"lo", 1>>, <<"lo", -1>>, <<"hi", 1>>, <<"hi", -1>>, <<"add", 1>>, <<"scale", 2>>, <<"scale", -1>>,
@@ -131,7 +138,7 @@ Lims == {LInt(n) : n \in (-L)..L}
 AllTr == Rewrites \cup Perturbs
 Space ==
   CASE Part = "value" ->
-         [sid |-> {"const", "lin", "quad", "altn", "xlin", "cplx", "vec", "cvec", "ivar", "geo", "altgeo"}, eo |-> 0..2, tr |-> AllTr,
+         [sid |-> {ValueSidSeq[i] : i \in 1..Len(ValueSidSeq)}, eo |-> 0..2, tr |-> AllTr,
           l |-> Lims, u |-> Lims, P |-> {Fields}, ord |-> {"asc"}, tol |-> {"default"}, cut |-> {Cut},
           fa |-> {"none"}, fs |-> {"none"}, fk |-> {0}, xs |-> {"frac"}]
     [] Part = "pos" ->
@@ -142,16 +149,17 @@ Space ==
           P |-> SUBSET Fields, ord |-> {"asc", "desc", "rot"},
           tol |-> {"default"}, cut |-> {Cut}, fa |-> {"none"}, fs |-> {"none"}, fk |-> {0}, xs |-> {"frac"}]
     [] Part = "tol" ->
-         [sid |-> {"lin", "xlin", "cplx", "vec", "geo", "cvec"}, eo |-> {0},
+         [sid |-> {"lin", "xlin", "cplx", "vec", "geo", "cvec"} \cup (IF L > 6 THEN {"altn", "quad", "altgeo"} ELSE {}), eo |-> {0},
           tr |-> {<<"same", 0>>, <<"shift", 2>>, <<"add", 1>>, <<"add", 5>>, <<"addq", 4>>, <<"addq", 64>>, <<"addq", 1024>>,
-                  <<"addi", 8>>, <<"scale", 2>>, <<"hi", -1>>, <<"lo", 1>>},
-          l |-> {LInt(n) : n \in {-3, 0, 1}}, u |-> {LInt(n) : n \in {2, 5, L}}, P |-> {Fields}, ord |-> {"asc"},
+                  <<"addi", 8>>, <<"scale", 2>>, <<"hi", -1>>, <<"lo", 1>>}
+                 \cup (IF L > 6 THEN {<<"addq", 16>>, <<"add", -2>>, <<"scale", -1>>, <<"hi", 1>>, <<"addi", 1>>} ELSE {}),
+          l |-> {LInt(n) : n \in {-3, 0, 1} \cup (IF L > 6 THEN {-L} ELSE {})}, u |-> {LInt(n) : n \in {2, 5, L}}, P |-> {Fields}, ord |-> {"asc"},
           tol |-> DOMAIN Tols, cut |-> {Cut}, fa |-> {"none"}, fs |-> {"none"}, fk |-> {0}, xs |-> {"frac"}]
     [] Part = "inf" ->
          [sid |-> {"geo", "altgeo", "geoinv", "xgeo", "fact", "const", "lin"}, eo |-> 0..2,
           tr |-> {<<"same", 0>>, <<"swap", 0>>, <<"rename", 0>>, <<"reverse", 0>>, <<"cut_explicit", 0>>, <<"cut_explicit", -1>>,
                   <<"cut_explicit", 1>>, <<"shift", 1>>, <<"shift", -2>>, <<"add", 1>>, <<"lo", 1>>, <<"hi", -1>>, <<"scale", 2>>},
-          l |-> {LInt(n) : n \in -2..3} \cup {PInf, NInf}, u |-> {LInt(n) : n \in -2..3} \cup {PInf, NInf},
+          l |-> {LInt(n) : n \in -2..(L - 1)} \cup {PInf, NInf}, u |-> {LInt(n) : n \in -2..(L - 1)} \cup {PInf, NInf},
           P |-> {Fields}, ord |-> {"asc"}, tol |-> {"default", "milli"}, cut |-> {Cut, Cut + 4},
           fa |-> {"none"}, fs |-> {"none"}, fk |-> {0}, xs |-> {"frac"}]
     [] Part = "err" ->
@@ -193,7 +201,9 @@ StudentOf(x) == LET a == CleanAuthor(x)
                 IN ApplyFault(Transform(x.tr, a1, IF x.sid = "fact" THEN CutFact ELSE x.cut), x.fs, x.fk, XsOf(x.xs))
 
 VARIABLES c, io, out
-Seeds == {[kind |-> "seed", sid |-> s, eo |-> e, tr |-> t, fa |-> f] : s \in Space.sid, e \in Space.eo, t \in Space.tr, f \in Space.fa}
+SeedOK(s) == Part # "value" \/ Stride = 1 \/ (IndexIn(ValueSidSeq, s.sid) + IndexIn(TrSeq, s.tr) + s.eo) % Stride = 0
+Seeds == {s \in {[kind |-> "seed", sid |-> s, eo |-> e, tr |-> t, fa |-> f] : s \in Space.sid, e \in Space.eo, t \in Space.tr, f \in Space.fa} : SeedOK(s)}
+ASSUME {TrSeq[i] : i \in 1..Len(TrSeq)} = AllTr /\ Len(TrSeq) = Cardinality(AllTr)
 CasesFor(s) == {x \in [kind : {Part}, sid : {s.sid}, eo : {s.eo}, tr : {s.tr}, fa : {s.fa}, l : Space.l, u : Space.u, P : Space.P,
                        ord : Space.ord, tol : Space.tol, cut : Space.cut, fs : Space.fs, fk : Space.fk, xs : Space.xs] : Sensible(x)}
 Init == c \in Seeds /\ io = "seed" /\ out = {}
